@@ -513,6 +513,43 @@ func vStoreJudge(x *vSchedExec, pre []uint32, allowed func(vEvent) bool) [][3]st
 	return out
 }
 
+// vJudgeAcks reopens every acknowledgement image (sequentially, fresh templates) and looks
+// for the documents that the acknowledged call had promised.
+func vJudgeAcks(x *vSchedExec) [][3]string {
+	var out [][3]string
+	for _, a := range x.acks {
+		img := a.img
+		img.RemoveRaw(vLock())
+		env := vStoreBegin(nil, img)
+		st, err := env.open(vStoreCfg{Mem: 2, Thr: 1, Comp: 5, Tmpl: "vtm", Vec: "flat"}.config())
+		if err != nil || env.dead != "" {
+			out = append(out, [3]string{"reopen-failed-on-acknowledged-image", "", fmt.Sprint(err, env.dead)})
+			env.end()
+			continue
+		}
+		for _, q := range vStoreQueries("vtm") {
+			var got map[uint32]float64
+			var serr error
+			env.do(func() { got, serr = vStoreSearch(st, q) })
+			if env.dead != "" || serr != nil {
+				out = append(out, [3]string{"search-failed-on-acknowledged-image", "", fmt.Sprint(serr, env.dead)})
+				break
+			}
+			for i, id := range a.durable {
+				if !vStoreMatches(vStoreDocs[a.docs[i]], q, "vtm") {
+					continue
+				}
+				if _, ok := got[id]; !ok {
+					out = append(out, [3]string{"acknowledged-doc-lost-if-the-process-dies-now", "", fmt.Sprintf("%s returned nil; a copy of the directory taken at that instant, reopened with fresh templates, answers probe %d with %v: document %d is missing", a.what, q, vIDSet(got), id)})
+				}
+			}
+		}
+		env.do(func() { st.Close() })
+		env.end()
+	}
+	return out
+}
+
 func vClosedMayFail(e vEvent) bool { return strings.Contains(e.Err, "closed") }
 
 func vInitStoreScenarios() {
@@ -628,6 +665,50 @@ func vInitStoreScenarios() {
 			}
 		},
 		Judge: func(x *vSchedExec) [][3]string { return vStoreJudge(x, nil, vNoErr) }}, "C11", "C08")
+	// D1 / D2 (C09): the acknowledgement of Flush / Close under a concurrently running
+	// background flush. At the instant the call returns nil the directory is copied (the
+	// process could die right there); after the execution a store is opened on the copy
+	// with fresh templates and must find every document added before the call. One
+	// memtable, hence one segment (several segments would run into the shared-template
+	// finding). FlushThreshold = 1 byte: every add wakes the background flush worker.
+	for _, closing := range []bool{false, true} {
+		closing := closing
+		name := "store/D1-flush-ack-durable"
+		if closing {
+			name = "store/D2-close-ack-durable"
+		}
+		both(&vScenario{Name: name,
+			Body: func(x *vSchedExec) {
+				st, err := vStoreOpen(x, vStoreCfg{Mem: 2, Thr: 0, Comp: 5, Tmpl: "vtm", Vec: "flat"})
+				if err != nil {
+					panic(err)
+				}
+				vStoreAdd(x, st, "main", 1, 0) // wakes the worker (nothing frozen yet: it finds nothing to do)
+				vStoreAdd(x, st, "main", 2, 1)
+				x.Spawn("A", func() {
+					x.Op("A", map[bool]string{false: "Flush", true: "Close"}[closing], func() ([]uint32, error) {
+						var err error
+						if closing {
+							err = st.Close()
+						} else {
+							err = st.Flush()
+						}
+						if err == nil && !x.free {
+							x.acks = append(x.acks, vAckImage{what: name, img: x.fs.Snapshot(), durable: []uint32{1, 2}, docs: []int{0, 1}})
+						}
+						return nil, err
+					})
+				})
+				x.Join()
+				if x.free && !closing {
+					st.Close()
+				}
+			},
+			Judge: func(x *vSchedExec) [][3]string {
+				out := vStoreJudge(x, nil, vNoErr)
+				return append(out, vJudgeAcks(x)...)
+			}}, "C09")
+	}
 	// T6: explicit Flush || Add, then Search
 	both(&vScenario{Name: "store/T6-flush-add",
 		Body: func(x *vSchedExec) {
